@@ -51,6 +51,7 @@ def run(ctx):
     import_impl()
     rng, seed = seeded_rng('c05')
     ctx.proof('Properties/C05.v')
+    globcommon.gsplit_corr(ctx, seeded_rng('gsplit')[0])
     ctx.corr('glob walker sequence', walker_corr(ctx, rng, 8 if ctx.quick else 60, 40))
     ev, nt, samples, known = globcommon.run_spec_search(ctx, rng, 6 if ctx.quick else 50, 22 if ctx.quick else 40)
     for kid, (pattern, fl, extra) in sorted(known.items()):
